@@ -24,6 +24,7 @@ import (
 
 	"github.com/nspcc-dev/neo-go/pkg/core/native/nativenames"
 	"github.com/nspcc-dev/neo-go/pkg/core/native/noderoles"
+	"github.com/nspcc-dev/neo-go/pkg/core/state"
 	"github.com/nspcc-dev/neo-go/pkg/core/transaction"
 	"github.com/nspcc-dev/neo-go/pkg/crypto/hash"
 	"github.com/nspcc-dev/neo-go/pkg/crypto/keys"
@@ -65,6 +66,7 @@ type world struct {
 	cur map[string]*neotest.Contract // compiled from the working tree
 	old map[string]*neotest.Contract // same sources with the version constant lowered by one
 	sub *neotest.Contract            // helper with newEpoch/1
+	kc  util.Uint160                 // helper that calls balance.transfer
 
 	ir       []neotest.Signer // keys designated NeoFSAlphabet (a set of their own)
 	irMaj    neotest.Signer
@@ -86,6 +88,7 @@ type world struct {
 		epoch   int64
 	}
 	lastWorld, lastTok string
+	fails              []chain.Rec
 	rec                *chain.Recorder
 	tid                int
 }
@@ -192,9 +195,14 @@ func (w *world) newAcc(label string, gas int64) neotest.Signer {
 	return s
 }
 
+// must runs a correctly witnessed transaction that builds a pre-state. A failure is not fatal: it is recorded
+// (`setupfail` line) and the cells that depend on the pre-state will show what is broken.
 func (w *world) must(h util.Uint160, signers []neotest.Signer, method string, args ...any) *chain.Result {
 	r := w.c.Run(h, signers, method, args...)
-	require.True(w.t, r.Halt, "setup call %s failed: %s", method, r.Fault)
+	if !r.Halt {
+		w.fails = append(w.fails, chain.Rec{"act": "setupfail", "m": method, "res": "FAULT", "fault": r.Fault,
+			"note": "a correctly witnessed call that builds a canonical pre-state failed"})
+	}
 	return r
 }
 
@@ -243,6 +251,9 @@ func newWorld(t *testing.T, n int, seed int64, rec *chain.Recorder, tid int) *wo
 	w.h["balance"] = c.DeployBalance()
 	w.h["neofsid"] = c.DeployNeoFSID()
 	w.h["proxy"] = c.DeployProxy()
+	// Container's _deploy registers its TLD, which takes the committee's witness; the deployment is signed by the
+	// validators' (= Alphabet) account, so the TLD is registered beforehand
+	w.must(w.h["nns"], []neotest.Signer{c.Cmt}, "registerTLD", "container", "ops@nspcc.io", int64(3600), int64(600), int64(10*365*24*3600), int64(3600))
 	w.h["container"] = c.DeployContainer()
 	w.h["reputation"] = c.DeployReputation()
 	w.h["audit"] = c.DeployAudit()
@@ -252,6 +263,19 @@ func newWorld(t *testing.T, n int, seed int64, rec *chain.Recorder, tid int) *wo
 	c.Deploy(w.cur["processing"], w.deployArgs("processing"))
 	w.h["alphabet"] = w.cur["alphabet"].Hash
 	c.Deploy(w.cur["alphabet"], w.deployArgs("alphabet"))
+	kc := c.CompileDir(filepath.Join(harnessRoot(), "contracts", "caller"))
+	c.Deploy(kc, nil)
+	w.kc = kc.Hash
+	// the NeoFS contract once more, in the notary-disabled mode (votes of the stored keys are collected)
+	vm := *w.cur["neofs"].Manifest
+	vm.Name += " #votes"
+	vc := &neotest.Contract{NEF: w.cur["neofs"].NEF, Manifest: &vm,
+		Hash: state.CreateContractHash(c.E.Validator.ScriptHash(), w.cur["neofs"].NEF.Checksum, vm.Name)}
+	va := w.deployArgs("neofs").([]any)
+	va[0] = true
+	c.Deploy(vc, va)
+	w.h["neofs#votes"] = vc.Hash
+	c.FundGAS(vc.Hash, 1000_0000_0000)
 
 	// the keys designated NeoFSAlphabet: a set of their own (as on the main chain)
 	irPrivs := make([]*keys.PrivateKey, n)
@@ -451,6 +475,10 @@ func (w *world) emit(r chain.Rec) {
 // sync emits a free `setup` line when the chain has moved since the last recorded line
 // (fixtures are built between cells by ordinary, correctly witnessed transactions).
 func (w *world) sync() (string, string) {
+	for _, f := range w.fails {
+		w.emit(f)
+	}
+	w.fails = nil
 	wd, tk := w.digest()
 	if wd != w.lastWorld || tk != w.lastTok {
 		w.lastWorld, w.lastTok = wd, tk
@@ -462,7 +490,7 @@ func (w *world) sync() (string, string) {
 // ---- signer sets ----
 
 var realAtoms = []string{"ALPHA", "CMT", "M1", "IRMAJ", "IR1", "X", "KEY", "OWNER", "ADMIN"}
-var pseudoAtoms = map[string]bool{"ARGSIG": true, "VIAGAS": true, "VIANEO": true}
+var pseudoAtoms = map[string]bool{"ARGSIG": true, "VIAGAS": true, "VIANEO": true, "VIACALLER": true}
 
 func (w *world) atom(a string, fx *fixture) neotest.Signer {
 	switch a {
@@ -603,21 +631,16 @@ func (w *world) runVerify(cell Cell) {
 		nntf = len(aer.Events)
 	} else {
 		fault = verr.Error()
-		// a block carrying the transaction must be refused as well
-		b := w.c.E.NewUnsignedBlock(w.t, tx)
-		w.c.E.SignBlock(b)
-		if err := w.c.E.Chain.AddBlock(b); err == nil {
-			valid = true
-			fault = "block accepted although VerifyTx refused: " + fault
-		}
 	}
 	// second channel: what a plain invocation with these signers returns
 	ret := "other"
-	st, err := w.c.CallAs(h, sg, "verify")
+	st, err := w.c.CallAs(h, append([]neotest.Signer{w.c.Payer}, sg...), "verify")
 	if err == nil && len(st) == 1 {
 		if b, e := st[0].TryBool(); e == nil {
 			ret = strconv.FormatBool(b)
 		}
+	} else if err != nil {
+		fault += " | plain invocation: " + err.Error()
 	}
 	wd, tk := w.digest()
 	wch, tch := wd != w.lastWorld, tk != w.lastTok
@@ -632,7 +655,7 @@ type cfgYml struct {
 	Safe []string `yaml:"safemethods"`
 }
 
-func (w *world) manifestLines(tbl map[string]bool, tblSafe map[string]bool) map[string]bool {
+func (w *world) manifestLines(tbl map[string]bool, tblSafe map[string]bool, emit bool) map[string]bool {
 	msafe := map[string]bool{}
 	inManifest := map[string]bool{}
 	for _, name := range contractNames {
@@ -657,6 +680,9 @@ func (w *world) manifestLines(tbl map[string]bool, tblSafe map[string]bool) map[
 			if md.Safe != cfgSafe[md.Name] {
 				note = fmt.Sprintf("manifest safe=%v, config.yml safemethods=%v", md.Safe, cfgSafe[md.Name])
 			}
+			if !emit {
+				continue
+			}
 			act := "declared"
 			if !tbl[k] {
 				act = "uncovered"
@@ -671,7 +697,7 @@ func (w *world) manifestLines(tbl map[string]bool, tblSafe map[string]bool) map[
 	}
 	sort.Strings(ks)
 	for _, k := range ks {
-		if !inManifest[k] {
+		if !inManifest[k] && emit {
 			p := strings.SplitN(k, ".", 2)
 			q := strings.SplitN(p[1], "/", 2)
 			a, _ := strconv.Atoi(q[1])
@@ -680,7 +706,6 @@ func (w *world) manifestLines(tbl map[string]bool, tblSafe map[string]bool) map[
 	}
 	return msafe
 }
-
 
 func TestDrive(t *testing.T) {
 	out := os.Getenv("VERIF_OUT")
@@ -738,7 +763,7 @@ func TestDrive(t *testing.T) {
 		g.cells = append(g.cells, c)
 	}
 	sort.Strings(order)
-	msafe := w.manifestLines(tbl, tblSafe)
+	msafe := w.manifestLines(tbl, tblSafe, os.Getenv("VERIF_NOTRAPS") == "")
 
 	rank := map[string]int{"inert": 0, "safe": 0, "unspecified": 1, "succeed": 2}
 	nofx := 0
@@ -782,7 +807,9 @@ func TestDrive(t *testing.T) {
 			w.runInvoke(c, e, ms, msafe[mk])
 		}
 	}
-	sort.SliceStable(verifies, func(i, j int) bool { return verifies[i].C+strings.Join(verifies[i].S, ",") < verifies[j].C+strings.Join(verifies[j].S, ",") })
+	sort.SliceStable(verifies, func(i, j int) bool {
+		return verifies[i].C+strings.Join(verifies[i].S, ",") < verifies[j].C+strings.Join(verifies[j].S, ",")
+	})
 	done := map[string]bool{}
 	for _, c := range verifies {
 		sk := c.C + "|" + strings.Join(c.S, ",")
